@@ -149,7 +149,12 @@ class ChangeScenario(Scenario):
             h = dict(h)
             hid, on = h.pop('id'), h.pop('on')
             script = parse_script(h.pop('script', ['ok']))
-            fn = scripted(env, hid, script)
+            if on == 'daemon':
+                from kv.harness.op import daemon_fn
+                fn = daemon_fn(env, hid, reaction=h.pop('reaction', 'obeys'), lifetime=h.pop('lifetime', None),
+                               exit_delay=h.pop('exit_delay', 0.0))
+            else:
+                fn = scripted(env, hid, script)
             if hid in subs:
                 fn = self._with_subs(env, hid, fn, subs[hid])
             deco = getattr(kopf.on, on) if on not in ('daemon', 'timer') else getattr(kopf, on)
@@ -211,6 +216,10 @@ class ChangeScenario(Scenario):
             w = env.world
             if action == 'create':
                 w.create(K, 'ns', args[0], {'spec': dict(args[1]) if len(args) > 1 else {'x': 1}})
+            elif action == 'createbare':
+                w.create(K, 'ns', args[0], {})   # no spec, no labels: an empty essence
+            elif action == 'unlabel':
+                w.merge(K, 'ns', args[0], {'metadata': {'labels': {args[1]: None}}})
             elif action == 'spec':
                 w.merge(K, 'ns', args[0], {'spec': {'x': args[1]}})
             elif action == 'label':
